@@ -785,13 +785,15 @@ def sweep(ctx, est_jobs, fn_jobs, thread_counts, repeats, inproc):
             d = diff_states(r, ref)
             if d:
                 md = _maxdiff(r['state'], ref['state']) if r['outcome'] == ref['outcome'] else None
-                bad.append((job, 'threads-differs', {'threads': [ref_key[0], k[0]], 'attrs': d, 'max_rel_diff': md}))
+                bad.append((job, 'threads-differs', {'threads': [ref_key[0], k[0]], 'attrs': d, 'max_rel_diff': md,
+                                                     'svds_restart': arpack_restart_pattern(job, r, ref)}))
                 break
         if inproc.get(i) is not None:
             d = diff_states(okr[ref_key][i], inproc[i])
             if d:
                 md = _maxdiff(okr[ref_key][i]['state'], inproc[i]['state'])
-                bad.append((job, 'process-differs', {'threads': ref_key[0], 'attrs': d, 'max_rel_diff': md}))
+                bad.append((job, 'process-differs', {'threads': ref_key[0], 'attrs': d, 'max_rel_diff': md,
+                                                     'svds_restart': arpack_restart_pattern(job, okr[ref_key][i], inproc[i])}))
     return bad, res
 
 
@@ -1083,6 +1085,8 @@ def report_sweep(ctx, bad):
             sig['loop_file'] = job['loop']
         if job['kind'] == 'fn' and 'solver' in job.get('kw', {}):
             sig['solver'] = job['kw']['solver']
+        if detail.get('svds_restart'):
+            sig['svds_restart'] = True
         ctx.spec_fail(sig, {'job': job, 'check': kind}, detail)
 
 
